@@ -154,6 +154,7 @@ def cases(rng, tier):
                 yield Case(program=render(t), tag='numstr')
     # (5) file operations in every handle state
     yield from file_cases(rng, tier)
+    yield from file_state_matrix(rng, tier)
     # (6) imports that cannot succeed
     yield from import_cases(rng, tier)
     # (8) the same callees invoked *by a built-in* instead of a call expression: as ㄱㄹ continuation and handler (called
@@ -218,6 +219,22 @@ def file_cases(rng, tier):
         ops = [rng.choice(FILE_OPS) for _ in range(rng.randint(0, 4))]
         fs = {"f.bin": b"0123456789", "sub/g.bin": b"abc"}
         yield Case(program=file_program(rng, path, mode, ops, handler=rng.random() < 0.3), fs=fs, tag='file')
+
+
+def file_state_matrix(rng, tier):
+    """systematic: every open mode × handle state (fresh, closed, closed twice, positioned beyond the end, after a failed
+    operation) × every operation form — random histories reach a given (mode, state, operation) triple only by luck
+    (seeded change S04h: a write on a *closed append-mode* handle)"""
+    fs = {"f.bin": b"0123456789"}
+    CLOSE, SEEKFAR, BADREAD = "ㄷ {f} ㅎㄴ", "{n} ㅈ {f} ㅎㄷ", "{b} ㄹ {f} ㅎㄷ"
+    states = {'fresh': [], 'closed': [CLOSE], 'closed-twice': [CLOSE, CLOSE], 'beyond-end': [SEEKFAR], 'after-failure': [BADREAD]}
+    for mode in MODES[:6]:
+        for sname, prefix in states.items():
+            for op in FILE_OPS:
+                for handler in (False, True):
+                    if handler and tier == 'quick' and rng.random() < 0.5:
+                        continue
+                    yield Case(program=file_program(rng, "f.bin", mode, prefix + [op], handler=handler), fs=fs, tag='file-state-' + sname)
 
 
 def import_cases(rng, tier):
